@@ -142,6 +142,9 @@ func monitorSession(c *vk.Ctx, a *app.App, cfg app.Config, hist []string, o sess
 			continue
 		}
 		wasTerminated := m.Terminated()
+		if cfg.ResetOnEmptyInput && in == "" {
+			wasTerminated = false // a new dial-in: the engine resets the session, TERMINATE included (the model says when)
+		}
 		callsBefore := cloneCalls(m.Calls)
 		p := m.Request(in)
 		c.Note(o.Driver + " " + printable(in))
@@ -448,6 +451,16 @@ func (mc *modelCheck) run(c *vk.Ctx) {
 			hist = mc.Hist(r, a)
 		} else {
 			hist = a.History(r, r.Range(mc.HistLen[0], mc.HistLen[1]))
+		}
+		if rr := c.RNG(key + "/roei"); rr.Chance(1, 5) {
+			// engine.Config.ResetOnEmptyInput, with empty inputs (new dial-ins) at any point of the history
+			cfg.ResetOnEmptyInput = true
+			for k := 1; k < len(hist); k++ {
+				if hist[k] != clearToken && rr.Chance(1, 5) {
+					hist[k] = ""
+				}
+			}
+			c.Count("histories_with_reset_on_empty_input", 1)
 		}
 		c.Begin(key)
 		// every fourth case serves a second session of the same application in alternation with the monitored one
